@@ -458,6 +458,14 @@ ORACLES = {'forms': o_forms, 'long': o_long, 'layout': o_layout, 'empty': o_empt
            'constructor': o_reject, 'modulate.oob': o_oob}
 
 
+def _robust():
+    """R15 / R16 live in harness/props/c01_robust.py; its oracles are registered here on first use"""
+    from harness.props import c01_robust
+    for k_, v_ in c01_robust.ORACLES.items():
+        ORACLES.setdefault(k_, v_)
+    return c01_robust
+
+
 def run_oracle(ctx, call, case, key=None):
     ctx.count((call, key if key is not None else repr(case)))
     try:
@@ -472,6 +480,7 @@ def run_oracle(ctx, call, case, key=None):
 
 
 def replay(ctx, rep):
+    _robust()
     return ORACLES[rep['call']](rep['case']) is not None
 
 
@@ -671,16 +680,20 @@ def check(ctx):
     psk_max, qam_max = (1 << 10, 4 ** 5) if quick else (1 << 10, 4 ** 6)
     nsamp = 24 if quick else 200
     core.prove(ctx, MODULE, generated=['Conversion', 'C01Formulas'], drivers=[DRIVER], scratch=ctx.scratch)
+    rob = _robust()
     ctx.required_branches = ['detection:after-setPhaseOffset', 'detection:boundary', 'detection:near', 'detection:uniform', 'accept:true',
-                             'accept:false', 'modulate:error:ValueError', 'modulate:ok']
+                             'accept:false', 'modulate:error:ValueError', 'modulate:ok'] + rob.REQUIRED_CORR
     try:
         correspondence(ctx, accept_max, psk_max, qam_max, nsamp)
+        rob.correspondence(ctx)
     except core.Infra as e:
         if not ctx.broken:
             raise
         ctx.notes.append('correspondence skipped: %s' % e)
         ctx.required_branches = []
+    ctx.required_branches = ctx.required_branches + rob.REQUIRED
     oracles(ctx, psk_max, qam_max, nsamp, 600 if quick else 5000)
+    rob.oracles(ctx)
     ctx.exhaustive = False
     ctx.sample({'call': 'demodulate', 'kind': 'QAM', 'M': 16, 'z': [0.6324555320336759 - 1e-6, 0.1]})
     ctx.sample({'call': 'constructor.PSK', 'M': 24, 'expected': 'rejected'})
